@@ -61,7 +61,7 @@ Proof.
   assert (Hh : vle (vdo _ <- reg_push h; vdo _ <- reg_push e; vdo _ <- Call ml1 1 1; vdo t <- reg_top; reg_get (t - 1))
                    (vdo _ <- reg_push h; vdo _ <- reg_push e; vdo _ <- Call ml2 1 1; vdo t <- reg_top; reg_get (t - 1))).
   { pose proof Call_mono. mono. }
-  destruct (Hh s') as [E2|E2]; rewrite E2; [left; reflexivity|apply rle_refl].
+  cbv zeta. destruct (Hh (set_nccalls (cur_nccalls s) s')) as [E2|E2]; rewrite E2; [left; reflexivity|apply rle_refl].
 Qed.
 
 Lemma getField_mono : forall n o k, vle (getField ml1 n o k) (getField ml2 n o k).
@@ -116,13 +116,13 @@ Proof.
   destruct (Hml None s) as [E|E]; rewrite E; [left; reflexivity|apply rle_refl].
 Qed.
 
-Lemma coResume_mono : vle (coResume ml1) (coResume ml2).
-Proof. pose proof threadRun_mono as HT. unfold coResume. mono. Qed.
+Lemma resumeThread_mono : forall w, vle (resumeThread ml1 w) (resumeThread ml2 w).
+Proof. pose proof threadRun_mono as HT. intro w. unfold resumeThread. mono. Qed.
 
 Lemma gfunction_mono : forall b, vle (gfunction ml1 b) (gfunction ml2 b).
 Proof.
   pose proof Call_mono as HC. pose proof PCall_mono as HP. pose proof ToStringMeta_mono as HT.
-  pose proof coResume_mono as HR.
+  pose proof resumeThread_mono as HR.
   intros. unfold gfunction. mono.
 Qed.
 
